@@ -1,6 +1,10 @@
 //! C02: `BPETokenizer::tokenize(s, true)` / `de_tokenize(ids, true)` against the model.
-//! input  = (tbl maxv toks prefix suffix text)
-//! output = ((id ...) dec vocab_size) with dec = () | ((byte ...)); () when the constructor fails
+//! input  = (tbl maxv toks prefix suffix text [file])
+//!          file (optional 7th field) = ((byte ...)): the merge file is exactly these bytes instead of the
+//!          crate's `save` of tbl (tbl is then `()` and ignored: the table is whatever the file holds)
+//! output = ((id ...) dec vocab_size fb lv) with dec = () | ((byte ...)); () when the constructor fails;
+//!          (-2 fb lv) when an explicit file loads but its ids are not 0..n-1 (nothing is tokenized);
+//!          fb = the bytes of the merge file on disk, lv = ((id key) ...) = the real `MergeOps::load` of it
 #[path = "../bpe_common.rs"]
 mod bpe;
 use bpe::*;
@@ -13,7 +17,19 @@ const SPECIALS: &[&str] = &["<pad>", "<bos>", "<eos>", "<unk>", "<x>", "[SEP]"];
 struct C02 {
     cur: Option<(Vec<Val>, Table, Vec<&'static str>)>,
     left: usize,
-    cache: Option<(Vec<Val>, Option<BPETokenizer>)>,
+    cache: Option<(Vec<Val>, Option<BPETokenizer>, MergeFile)>,
+}
+
+/// the optional 7th field: explicit file bytes
+fn explicit_file(l: &[Val]) -> Option<Option<Vec<u8>>> {
+    match l.get(6) {
+        None => Some(None),
+        Some(v) => match v.as_l()? {
+            [] => Some(None),
+            [b] => Some(Some(b.as_l()?.iter().map(|x| x.as_i().and_then(|i| u8::try_from(i).ok())).collect::<Option<Vec<u8>>>()?)),
+            _ => None,
+        },
+    }
 }
 
 fn strs(v: &Val) -> Option<Vec<String>> {
@@ -75,10 +91,11 @@ fn gen_config(rng: &mut Rng) -> (Vec<Val>, Table, Vec<&'static str>) {
 }
 
 impl C02 {
-    fn tokenizer(&mut self, cfg: &[Val]) -> Option<Option<&BPETokenizer>> {
-        let hit = matches!(&self.cache, Some((c, _)) if c.as_slice() == cfg);
+    /// `cfg` = the first five fields and, for an explicit file, the seventh
+    fn tokenizer(&mut self, cfg: &[Val], explicit: Option<&[u8]>) -> Option<(Option<&BPETokenizer>, &MergeFile)> {
+        let hit = matches!(&self.cache, Some((c, _, _)) if c.as_slice() == cfg);
         if !hit {
-            let table = val_table(&cfg[0])?;
+            let table = if explicit.is_some() { vec![] } else { val_table(&cfg[0])? };
             let maxv = match cfg[1].as_l()? {
                 [] => None,
                 [x] => Some(x.as_usize()?),
@@ -92,18 +109,27 @@ impl C02 {
                 suffix: strs(&cfg[4])?,
             };
             let g = cfg[0].as_l()?.len() % 2 == 1; // use_graphemes is not used by the BPE tokenizer; vary it anyway
-            let tok = build_tokenizer(DIR, &table, maxv, special, g).ok();
-            self.cache = Some((cfg.to_vec(), tok));
+            let (tok, mf) = build_tokenizer_file(DIR, &table, explicit, maxv, special, g);
+            self.cache = Some((cfg.to_vec(), tok.ok(), mf));
         }
-        Some(self.cache.as_ref().unwrap().1.as_ref())
+        let c = self.cache.as_ref().unwrap();
+        Some((c.1.as_ref(), &c.2))
     }
 }
 
 impl Prop for C02 {
     fn gen(&mut self, rng: &mut Rng, _tier: Tier, _i: usize, _n: usize) -> Val {
         if self.left == 0 || self.cur.is_none() {
-            self.cur = Some(gen_config(rng));
+            let (mut cfg, table, alpha) = gen_config(rng);
             self.left = rng.range(6, 30);
+            if rng.chance(1, 4) {
+                // hand-made merge file (about 8 % of the cases: these configurations get fewer texts)
+                let (fb, _kind) = gen_merge_file(rng, &table);
+                cfg[0] = Val::L(vec![]);
+                cfg.push(Val::some(Val::bytes(&fb)));
+                self.left = rng.range(1, 6);
+            }
+            self.cur = Some((cfg, table, alpha));
         }
         self.left -= 1;
         let (cfg, table, alpha) = self.cur.as_ref().unwrap();
@@ -126,38 +152,67 @@ impl Prop for C02 {
             }
         }
         let mut l = cfg.clone();
-        l.push(Val::str(&text));
+        l.insert(5, Val::str(&text));
         Val::L(l)
     }
 
     fn run(&mut self, input: &Val) -> Option<(Val, Vec<String>)> {
         let l = input.as_l()?;
-        if l.len() != 6 {
+        if l.len() != 6 && l.len() != 7 {
             return None;
         }
         let text = val_text(&l[5])?;
-        let table = val_table(&l[0])?;
+        let explicit = explicit_file(l)?;
         let ntoks = l[2].as_l()?.len();
         let maxv = l[1].as_l()?.first().and_then(|x| x.as_usize());
         let mut tags = vec![];
-        let out = match self.tokenizer(&l[..5])? {
-            None => {
-                tags.push("ctor-error".to_string());
-                Val::L(vec![])
+        let mut key = l[..5].to_vec();
+        if explicit.is_some() {
+            if !l[0].as_l()?.is_empty() {
+                return None;
             }
-            Some(tok) => {
-                let t2 = text.clone();
-                guard(std::panic::AssertUnwindSafe(|| match tok.tokenize(&t2, true) {
-                    Err(_) => Val::L(vec![Val::I(-1)]),
-                    Ok(t) => {
-                        let dec = tok.de_tokenize(&t.token_ids, true).ok();
-                        Val::L(vec![
-                            Val::list(t.token_ids.iter(), |i| Val::I(*i as i64)),
-                            Val::opt(dec, |s| Val::bytes(s.as_bytes())),
-                            Val::u(tok.vocab_size()),
-                        ])
-                    }
-                }))
+            key.push(l[6].clone());
+        }
+        let (tok, mf) = self.tokenizer(&key, explicit.as_deref())?;
+        let mf = mf.clone();
+        let table = match &explicit {
+            None => val_table(&l[0])?,
+            Some(_) => mf.well_formed().unwrap_or_default(),
+        };
+        if explicit.is_some() {
+            tags.push("file".to_string());
+            tags.push(match (&mf.loaded, mf.well_formed()) {
+                (None, _) => "file:rejected",
+                (Some(_), None) => "file:ill-formed",
+                (Some(_), Some(_)) => "file:accepted",
+            }.to_string());
+        }
+        let out = if explicit.is_some() && mf.loaded.is_some() && mf.well_formed().is_none() {
+            // loads, but is not a merge table (ids with gaps / repetitions): only the load is compared
+            Val::L(vec![Val::I(-2), mf.bytes_val(), mf.loaded_val()])
+        } else {
+            match tok {
+                None => {
+                    tags.push("ctor-error".to_string());
+                    Val::L(vec![])
+                }
+                Some(tok) => {
+                    let t2 = text.clone();
+                    let (fb, lv) = (mf.bytes_val(), mf.loaded_val());
+                    guard(std::panic::AssertUnwindSafe(|| match tok.tokenize(&t2, true) {
+                        Err(_) => Val::L(vec![Val::I(-1)]),
+                        Ok(t) => {
+                            let dec = tok.de_tokenize(&t.token_ids, true).ok();
+                            Val::L(vec![
+                                Val::list(t.token_ids.iter(), |i| Val::I(*i as i64)),
+                                Val::opt(dec, |s| Val::bytes(s.as_bytes())),
+                                Val::u(tok.vocab_size()),
+                                fb,
+                                lv,
+                            ])
+                        }
+                    }))
+                }
             }
         };
         let n_eff = eff_len(&table, maxv, ntoks);
@@ -190,7 +245,7 @@ impl Prop for C02 {
 
     fn canon(&mut self, input: &Val) -> Option<Val> {
         let l = input.as_l()?;
-        if l.len() != 6 {
+        if l.len() != 6 && l.len() != 7 {
             return None;
         }
         let maxv = match l[1].as_l()? {
@@ -198,7 +253,14 @@ impl Prop for C02 {
             [x, ..] => Val::L(vec![Val::I(x.as_i()?.max(0))]),
         };
         let strs_v = |v: &Val| -> Option<Val> { Some(Val::L(v.as_l()?.iter().map(canon_text).collect::<Option<Vec<_>>>()?)) };
-        Some(Val::L(vec![canon_table(&l[0])?, maxv, strs_v(&l[2])?, strs_v(&l[3])?, strs_v(&l[4])?, canon_text(&l[5])?]))
+        let mut out = vec![canon_table(&l[0])?, maxv, strs_v(&l[2])?, strs_v(&l[3])?, strs_v(&l[4])?, canon_text(&l[5])?];
+        // an explicit file: bytes clamped, the table field is not used
+        if let Some(Some(f)) = l.get(6).map(|v| v.as_l().and_then(|x| x.first())) {
+            let b: Vec<u8> = f.as_l()?.iter().map(|x| x.as_i().unwrap_or(0).clamp(0, 255) as u8).collect();
+            out[0] = Val::L(vec![]);
+            out.push(Val::some(Val::bytes(&b)));
+        }
+        Some(Val::L(out))
     }
 
     fn selfcheck(&mut self) -> Vec<String> {
